@@ -238,7 +238,7 @@ def justify(I, ctx, s_err, oks):
 
 
 def check(env, rep, tier):
-    include(rep, env, tier, "c02", ("C02.4",), "C03.6", "'rejects ... / accepts every well-formed datagram': a datagram is accepted only after the option scan ran to the end of the input or to a payload marker")
+    include(rep, env, tier, "c02", ("C02.4", "C02.2"), "C03.6", "'accepts every well-formed datagram and returns exactly the fields that grammar defines': a datagram is accepted only after the option scan ran to the end of the input or to a payload marker, and every option number / value / token / payload is formed from the bytes section 3.1 prescribes")
     configs = ["default"] if tier == "quick" else ["default", "nodefault", "udp"]
     rep.configs = configs
     for cfg in configs:
